@@ -4,6 +4,7 @@ import lingo_harness as H
 import lingo_spec as S
 from props import C02 as P2
 
+NEEDS_SPEC = True       # the spec tie runs the extracted specification side (runner/specrun)
 BUDGET_S = {'quick': 200, 'thorough': 1800}
 BATCH = 150
 RULE = ('the program space of C02 and C03 (operator pairs, random straight-line handlers, the further instruction families, '
@@ -138,7 +139,15 @@ def judge(c, ir, ms):
         return out
     if ms is not None:
         if mt is None:
-            out.append(('model fails (%r) on a chunk the implementation decompiles' % (ms,), 'correspondence', None))
+            out.append(('model fails (%r) on a chunk the implementation decompiles' % (H.split_ms(ms)[0],), 'correspondence', None))
         elif not same_as_model:
             out.append(('JavaScript text differs from the model: ' + H.first_diff(js, mt[1]), 'correspondence', None))
+        out += [v for v in H.spec_verdicts(c, ir, ms) if 'JavaScript' in v[0] or 'bytes' in v[0] or 'rejects' in v[0]]
     return out
+
+def extra_evidence(tier):
+    """what the spec tie (tie/spec_tie.py) compared in this run"""
+    import spec_tie as ST
+    return {'spec_tie': dict(ST.STATS, what='handlers inside the fragment of the theorems: code = bytes of SpecFor.code2 (Coq, extracted) '
+                             'compared with the harness compiler; lingo / js = canonical texts pp_q / pp_js_q of the theorems compared with the '
+                             'text the implementation emits (only when the boolean side conditions of the theorems hold)')}
